@@ -125,6 +125,28 @@ static size_t init_bmp_header(WindowsBitmapHeader& header,
   return header_size;
 }
 
+// Expands grayscale (or grayscale+alpha) samples stored at the beginning of
+// data into RGB (or RGBA) samples in place. The buffer must be large enough for
+// the expanded data. We work backward from the last pixel so that unexpanded
+// samples are never overwritten before they are read.
+template <typename T>
+static void expand_gray_samples_in_place(T* data, size_t pixel_count, bool has_alpha) {
+  size_t src_stride = has_alpha ? 2 : 1;
+  size_t dest_stride = has_alpha ? 4 : 3;
+  for (size_t z = pixel_count; z > 0; z--) {
+    const T* src = &data[(z - 1) * src_stride];
+    T* dest = &data[(z - 1) * dest_stride];
+    T v = src[0];
+    T a = has_alpha ? src[1] : 0;
+    dest[0] = v;
+    dest[1] = v;
+    dest[2] = v;
+    if (has_alpha) {
+      dest[3] = a;
+    }
+  }
+}
+
 void Image::load(FILE* f) {
   char sig[2];
   freadx(f, sig, 2);
@@ -242,15 +264,19 @@ void Image::load(FILE* f) {
       new_channel_width = 8;
     }
 
+    // Grayscale data is expanded to color data in place after reading, so the
+    // buffer must be allocated at the size of the expanded image, which may be
+    // larger than the data in the file.
     DataPtrs new_data;
-    size_t channels_factor = (format == Format::COLOR_PPM ? 3 : 1) + (new_has_alpha ? 1 : 0);
-    new_data.raw = malloc(new_width * new_height * channels_factor * (new_channel_width / 8));
+    size_t file_channels = (format == Format::COLOR_PPM ? 3 : 1) + (new_has_alpha ? 1 : 0);
+    size_t image_channels = 3 + (new_has_alpha ? 1 : 0);
+    size_t value_bytes = new_channel_width / 8;
+    new_data.raw = malloc(new_width * new_height * image_channels * value_bytes);
     if (!new_data.raw) {
       throw bad_alloc();
     }
     try {
-      freadx(f, new_data.raw,
-          new_width * new_height * channels_factor * (new_channel_width / 8));
+      freadx(f, new_data.raw, new_width * new_height * file_channels * value_bytes);
     } catch (const exception&) {
       free(new_data.raw);
       throw;
@@ -267,48 +293,17 @@ void Image::load(FILE* f) {
     this->data.raw = new_data.raw;
 
     // Color PPM data is already in the necessary format for Image's internal
-    // storage. Grayscale data is not - we have to expand it into color data. To
-    // do so, we copy the gray channel to all color channels starting from the
-    // end of the image (so we won't incorrectly overwrite unexpanded data).
+    // storage. Grayscale data is not - we have to expand it into color data.
     if (format == Format::GRAYSCALE_PPM) {
-      size_t dest_stride = this->has_alpha ? 4 : 3;
-      size_t src_stride = this->has_alpha ? 2 : 1;
-      for (ssize_t y = this->height - 1; y >= 0; y--) {
-        for (ssize_t x = this->width - 1; x >= 0; x--) {
-          if (this->channel_width == 8) {
-            uint8_t v = this->data.as8[y * this->width * src_stride + x];
-            this->data.as8[(y * this->width + x) * dest_stride + 0] = v;
-            this->data.as8[(y * this->width + x) * dest_stride + 1] = v;
-            this->data.as8[(y * this->width + x) * dest_stride + 2] = v;
-            if (this->has_alpha) {
-              this->data.as8[(y * this->width + x) * dest_stride + 3] = this->data.as8[y * this->width * src_stride + x + 1];
-            }
-          } else if (this->channel_width == 16) {
-            uint8_t v = this->data.as16[y * this->width * src_stride + x];
-            this->data.as16[(y * this->width + x) * dest_stride + 0] = v;
-            this->data.as16[(y * this->width + x) * dest_stride + 1] = v;
-            this->data.as16[(y * this->width + x) * dest_stride + 2] = v;
-            if (this->has_alpha) {
-              this->data.as16[(y * this->width + x) * dest_stride + 3] = this->data.as16[y * this->width * src_stride + x + 1];
-            }
-          } else if (this->channel_width == 32) {
-            uint8_t v = this->data.as32[y * this->width * src_stride + x];
-            this->data.as32[(y * this->width + x) * dest_stride + 0] = v;
-            this->data.as32[(y * this->width + x) * dest_stride + 1] = v;
-            this->data.as32[(y * this->width + x) * dest_stride + 2] = v;
-            if (this->has_alpha) {
-              this->data.as32[(y * this->width + x) * dest_stride + 3] = this->data.as32[y * this->width * src_stride + x + 1];
-            }
-          } else if (this->channel_width == 64) {
-            uint8_t v = this->data.as64[y * this->width * src_stride + x];
-            this->data.as64[(y * this->width + x) * dest_stride + 0] = v;
-            this->data.as64[(y * this->width + x) * dest_stride + 1] = v;
-            this->data.as64[(y * this->width + x) * dest_stride + 2] = v;
-            if (this->has_alpha) {
-              this->data.as64[(y * this->width + x) * dest_stride + 3] = this->data.as64[y * this->width * src_stride + x + 1];
-            }
-          }
-        }
+      size_t pixel_count = new_width * new_height;
+      if (this->channel_width == 8) {
+        expand_gray_samples_in_place(this->data.as8, pixel_count, this->has_alpha);
+      } else if (this->channel_width == 16) {
+        expand_gray_samples_in_place(this->data.as16, pixel_count, this->has_alpha);
+      } else if (this->channel_width == 32) {
+        expand_gray_samples_in_place(this->data.as32, pixel_count, this->has_alpha);
+      } else if (this->channel_width == 64) {
+        expand_gray_samples_in_place(this->data.as64, pixel_count, this->has_alpha);
       }
     }
 
